@@ -62,7 +62,7 @@ pub fn run(s: &HistScenario) -> RunOut {
     let mut violation: Option<Violation> = None;
     let mut model: BTreeMap<CoarseId, String> = BTreeMap::new();
     policy.install(0);
-    let mut parser: Parser<CoarseId> = Parser::new();
+    let mut parser: Parser<CoarseId> = if s.ctor_default { Parser::default() } else { Parser::new() };
     let mut max_live = 0usize;
     let mut nontrivial = false;
     let mut pending = false;
@@ -128,7 +128,7 @@ pub fn run(s: &HistScenario) -> RunOut {
         pending = false;
         let got = observe(&parser);
         policy.install(1_000_000 + step_no);
-        let mut fresh: Parser<CoarseId> = Parser::new();
+        let mut fresh: Parser<CoarseId> = if s.ctor_default { Parser::new() } else { Parser::default() };
         let mut fresh_panic = false;
         for (id, text) in &model {
             if catch_unwind(AssertUnwindSafe(|| fresh.add_content(id.clone(), text))).is_err() {
